@@ -4,7 +4,8 @@ import I18n.Spec.CPyPercent
 # "Arguments of the shape and types the parser reports"
 
 The right operand of `%` that property C12 speaks about, for a result `r` of `FormatString(s)`:
-a tuple with one value per entry of `seq_arguments` when the specifications are unnamed, a `dict` with a value per
+a tuple with one value per entry of `seq_arguments` when the specifications are unnamed (or the bare value when there is
+exactly one entry), a `dict` with a value per
 key of `map_arguments` when they are named; the value for an entry has the reported type:
 an `int` for every `*` width or precision and for the type `int`, a `float` (or an `int` that converts) for `float`,
 a one-character `str` or a code point for `chr`, anything for `str` and `object`.
@@ -35,7 +36,7 @@ def okAll : List Entry → List Val → Prop
 def Matches (r : Result) : Args → Prop
   | .tuple vs => r.map = [] ∧ okAll r.seq vs
   | .dict m => r.seq = [] ∧ ∀ k es, (k, es) ∈ r.map → ∃ v, lookup m k = some v ∧ ∀ e ∈ es, okFor e v
-  | .single _ => False
+  | .single v => r.map = [] ∧ ∃ e, r.seq = [e] ∧ okFor e v      -- `'%s' % x` for a single unnamed specification
 
 /-- a canonical value of the reported type -/
 def defaultVal (e : Entry) : Val :=
